@@ -483,6 +483,21 @@ func (k *Keys) Sign(msg []byte, wantReject string) (sig []byte, trace []Attempt)
 			w1pack = append(w1pack, PackW1(&w1[i])...)
 		}
 		ctilde := squeeze(shake256(mu, w1pack), 32)
+		if len(wantReject) > 7 && wantReject[:7] == "ctweak=" {
+			// a signer who holds the key and deviates in ONE step: the transmitted challenge differs from the honest
+			// H(mu || w1) in one byte, and that transmitted value is used consistently for z, the checks and the hints.
+			// The verifier recomputes the honest challenge from the same w1: only its comparison can tell.
+			pos, x := 0, 0
+			i := 7
+			for ; i < len(wantReject) && wantReject[i] != ':'; i++ {
+				pos = pos*10 + int(wantReject[i]-'0')
+			}
+			for i++; i < len(wantReject); i++ {
+				x = x*10 + int(wantReject[i]-'0')
+			}
+			ctilde = append([]byte{}, ctilde...)
+			ctilde[pos%32] ^= byte(x)
+		}
 		c := SampleInBall(ctilde)
 		at := Attempt{Kappa: kappa}
 		var z [L]Poly
@@ -533,7 +548,9 @@ func (k *Keys) Sign(msg []byte, wantReject string) (sig []byte, trace []Attempt)
 		}
 		trace = append(trace, at)
 		take := at.Reject == ""
-		if len(wantReject) > 6 && wantReject[:6] == "kappa=" {
+		if len(wantReject) > 7 && wantReject[:7] == "ctweak=" {
+			// keep the honest acceptance rule (all four checks pass under the tweaked challenge)
+		} else if len(wantReject) > 6 && wantReject[:6] == "kappa=" {
 			n := 0
 			for _, ch := range wantReject[6:] {
 				n = n*10 + int(ch-'0')
